@@ -104,6 +104,10 @@ def run_chunk(prop, tier, base, indices, keep_digests):
                 size = len(json.dumps(plan)) + 20 * len(res["choices"])
                 if cur is None or size < cur["size"]:
                     out["viol"][sig] = {"idx": idx, "v": v, "plan": plan, "size": size, "digest": res["digest"]}
+    try:
+        os.remove("/tmp/.pyro5dst-current-%d" % os.getpid())      # (stays behind only if this process dies in a run)
+    except OSError:
+        pass
     return out
 
 
